@@ -72,7 +72,8 @@ func (s *set[ElementType]) DeleteAll(other ReadableSet[ElementType]) (removedEle
 
 	removedElements = NewSet[ElementType]()
 	_ = other.ForEach(func(element ElementType) (err error) {
-		if s.Delete(element) {
+		// applyMutex is already read-locked: delete from the map directly (s.Delete would lock it again)
+		if s.OrderedMap.Delete(element) {
 			removedElements.Add(element)
 		}
 
